@@ -81,6 +81,10 @@ class FaultSchedule(Entity):
         all_events: list[Event] = []
 
         for fault, handle in zip(self._faults, self._handles, strict=False):
+            if handle.cancelled:
+                # Cancelled before the simulation was built: the fault never acts.
+                logger.debug("[%s] Fault %s was cancelled, skipping", self.name, type(fault).__name__)
+                continue
             fault_events = fault.generate_events(ctx)
             handle._events = fault_events
             all_events.extend(fault_events)
